@@ -55,6 +55,7 @@ Req(s, k) ==
     /\ lost[s] = 0
     /\ \/ req[s] = "none" /\ k \in {"half", "lose", "abort"}
        \/ req[s] = "half" /\ k \in {"lose", "abort"}
+       \/ req[s] = "lose" /\ k = "abort"
     /\ req' = [req EXCEPT ![s] = k]
     /\ UNCHANGED <<cfg, sent, rcvd, lost, why, rdl, wrl>>
 
